@@ -144,6 +144,8 @@ type facts struct {
 	files       []fileID // the files the step reads its index entries from
 	allBusy     bool     // (symptom side) every failing read answered Busy
 	busyPages   []int    // the pages that answered Busy
+	ref         int      // the TXID of the reference image the step is compared with
+	badPages    []int    // (symptom side) the pages that differ or read short; explained per page by the hydration predicates
 }
 
 type fileID struct {
@@ -169,14 +171,15 @@ type view struct {
 	conn         *sql.Conn
 
 	// hydration dimension (hydration.go)
-	hw              *hydWatch
-	gated           bool     // the hydration goroutine is held in flight
-	posAtGate       ltx.TXID // position when it was held
-	polledDuringHyd string   // predicate of keyHydPoll
-	ttDuringHyd     string   // predicate of keyHydTT
-	resetPastHyd    string   // predicate of keyHydReset
-	resumeFrom      int
-	resumeGap       string // predicate of keyHydResume
+	hw          *hydWatch
+	gated       bool     // the hydration goroutine is held in flight
+	posAtGate   ltx.TXID // position when it was held
+	posAtOpen   ltx.TXID // position at Open (what the hydration goroutine restores / catches up to)
+	hydAt       int      // the TXID the hydrated copy has been brought to (restore, catch-up, polls after completion)
+	missed      []missedRange
+	ttDuringHyd string // predicate of keyHydTT
+	ttTXID      int    // the TXID the current time-travel view stands for
+	resumeFrom  int
 }
 
 type harness struct {
@@ -940,14 +943,7 @@ func (h *harness) cursorSeedingExplains(v *view, pages []int) string {
 	}
 	var parts []string
 	for _, pg := range pages {
-		w := 0
-		for n := pos; n >= 1 && w == 0; n-- {
-			if lf := h.e.Arch.Files[n]; lf != nil {
-				if _, ok := lf.Pages[uint32(pg)]; ok {
-					w = n
-				}
-			}
-		}
+		w := h.lastWriter(pg, pos)
 		if w == 0 {
 			return ""
 		}
@@ -974,6 +970,18 @@ func (h *harness) cursorSeedingExplains(v *view, pages []int) string {
 		}
 	}
 	return fmt.Sprintf("index built from a plan without a level-1 file, level-1 cursor seeded with position %d; %s", seed, strings.Join(parts, "; "))
+}
+
+// lastWriter: the newest transaction <= upTo whose level-0 file holds the page.
+func (h *harness) lastWriter(pg, upTo int) int {
+	for n := upTo; n >= 1; n-- {
+		if lf := h.e.Arch.Files[n]; lf != nil {
+			if _, ok := lf.Pages[uint32(pg)]; ok {
+				return n
+			}
+		}
+	}
+	return 0
 }
 
 func (v *view) addFiles(ids []fileID) {
@@ -1117,6 +1125,7 @@ func (h *harness) compareBytes(v *view, fx facts, ref []byte, what string) bool 
 		h.res.Evals++
 		if err != nil || n != ps {
 			nerr++
+			fx.badPages = append(fx.badPages, pg)
 			if err == sqlite3vfs.BusyError {
 				nbusy++
 				fx.busyPages = append(fx.busyPages, pg)
@@ -1140,6 +1149,7 @@ func (h *harness) compareBytes(v *view, fx facts, ref []byte, what string) bool 
 		}
 		if !bytes.Equal(got, want) {
 			nbad++
+			fx.badPages = append(fx.badPages, pg)
 			if len(bad) < 8 {
 				off := 0
 				for i := range want {
@@ -1231,6 +1241,7 @@ func (h *harness) compare(v *view, fx facts) bool {
 	}
 	h.compares++
 	h.cmpTXIDs[n] = true
+	fx.ref = n
 	h.res.Count("compare_"+fx.kind, 1)
 	if fx.planShrink {
 		h.res.Count("index_built_from_plan_with_shrink", 1)
@@ -1344,7 +1355,7 @@ func (h *harness) open(gate bool) {
 			h.res.Count("open_error", 1)
 			return
 		}
-		v = &view{label: "direct", f: f, client: c, hw: w}
+		v = &view{label: "direct", f: f, client: c, hw: w, posAtOpen: f.Pos().TXID}
 		h.res.Count("hydration_started", 1)
 		h.noteResume(v, persisted)
 	}
@@ -1413,6 +1424,16 @@ func (h *harness) pollOnce(v *view, fx facts) {
 	if after < before {
 		h.res.Count("poll_position_regressed", 1)
 	}
+	if v.hw != nil && after > before {
+		switch {
+		case v.gated:
+			v.miss(keyHydPoll, int(before), int(after), nil, fmt.Sprintf("a poll advanced the position %d -> %d while the background hydration (started at position %d) was in flight", before, after, v.posAtGate))
+			h.res.Count("poll_advanced_while_hydration_in_flight", 1)
+		case v.hw.serving() && err == nil:
+			v.hydAt = int(after)
+			h.res.Count("poll_applied_to_hydrated_file", 1)
+		}
+	}
 	if err == nil {
 		v.addFiles(fx.files)
 		if fx.batchShrink {
@@ -1443,39 +1464,68 @@ func (h *harness) poll(v *view, locked bool) {
 			return
 		}
 	}
-	before := v.f.Pos().TXID
 	h.pollOnce(v, fx)
 	if locked {
 		if err := v.f.Unlock(sqlite3vfs.LockNone); err != nil {
 			h.e.Logf("Unlock(NONE) err=%v", err)
 		}
 	}
-	if after := v.f.Pos().TXID; v.gated && after > before {
-		v.polledDuringHyd = fmt.Sprintf("a poll advanced the position %d -> %d while the background hydration (started at position %d) was in flight", before, after, v.posAtGate)
-		h.res.Count("poll_advanced_while_hydration_in_flight", 1)
-	}
 	h.compare(v, fx)
 }
 
 // timeTravel: SetTargetTime(T) vs Restore(Timestamp=T), T derived from a
 // recorded level-0 header timestamp; then (sometimes) a poll during time
-// travel, then ResetTime vs the latest position.
-//
-// race: SetTargetTime is issued while a poll is in flight. The poll runs in a
-// goroutine and is held in its first replica call (the level-0 listing) by the
-// gate of the view's client -- the code's own suspension point, f.mu is not
-// held there -- until SetTargetTime has returned; then the listing is released
-// and the poll runs to its end before anything is compared. arg "pos" (pinned
-// demonstration) takes T just after the timestamp of the view's position.
-func (h *harness) timeTravel(v *view, race bool, arg string) {
-	if v == nil || h.e.Arch.Max() == 0 || v.tt {
+// travel, then ResetTime vs the latest position. The three phases are also
+// available as separate steps (ttset / ttpoll / ttreset) so that primary
+// commits can be placed inside the time-travel window.
+func (h *harness) timeTravel(v *view, mode, arg string) {
+	if v == nil || h.e.Arch.Max() == 0 || v.tt || v.gated {
 		return
+	}
+	pollDuring := h.rng.Intn(2) == 0 // drawn before any timing-dependent outcome
+	resetLocked := h.rng.Intn(4) == 0
+	ok := h.ttSet(v, mode, arg)
+	if ok && pollDuring {
+		ok = h.ttPoll(v)
+	}
+	if ok {
+		h.ttReset(v, resetLocked)
+	}
+}
+
+// ttSet issues SetTargetTime and compares the view with Restore(Timestamp=T).
+//
+// mode "race": SetTargetTime is issued while a poll is in flight. The poll runs
+// in a goroutine and is held in its first replica call (the level-0 listing) by
+// the gate of the view's client -- the code's own suspension point, f.mu is not
+// held there -- until SetTargetTime has returned; then the listing is released
+// and the poll runs to its end before anything is compared.
+//
+// mode "lock": what a connection does that executes PRAGMA litestream_time
+// inside a read transaction: Lock(SHARED); a poll lands in the staging area
+// (pending index); SetTargetTime under the lock; Unlock(NONE). The comparison
+// runs after the Unlock.
+//
+// arg "pos" (pinned demonstrations) takes T just after the timestamp of the
+// view's position at the start of the step, "before" the newest earlier time.
+func (h *harness) ttSet(v *view, mode, arg string) bool {
+	if v == nil || h.e.Arch.Max() == 0 || v.tt {
+		return false
 	}
 	n := 1 + h.rng.Intn(h.e.Arch.Max())
 	q := h.rng.Intn(10)
-	pollDuring := h.rng.Intn(2) == 0 // drawn before any timing-dependent outcome
-	if arg == "pos" {
-		n, q = int(v.f.Pos().TXID), 0
+	pos := int(v.f.Pos().TXID)
+	switch arg {
+	case "pos":
+		n, q = pos, 0
+	case "before":
+		n, q = 1, 0
+		for m := pos - 1; m >= 1; m-- {
+			if h.e.Arch.Files[m] != nil && h.e.Arch.Files[pos] != nil && h.e.Arch.Files[m].Hdr.Timestamp+1 < h.e.Arch.Files[pos].Hdr.Timestamp {
+				n = m
+				break
+			}
+		}
 	}
 	ts := time.UnixMilli(h.e.Arch.Files[n].Hdr.Timestamp).UTC()
 	var T time.Time
@@ -1497,9 +1547,36 @@ func (h *harness) timeTravel(v *view, race bool, arg string) {
 	kind := "set-target-time"
 	var serr error
 	var pfx facts
-	if !race {
+	wasServing := v.hw.serving()
+	switch mode {
+	case "":
 		serr = v.f.SetTargetTime(h.ctx, T)
-	} else {
+	case "lock":
+		kind = "set-target-time-locked"
+		pfx = h.pollFacts(v, "poll")
+		if err := v.f.Lock(sqlite3vfs.LockShared); err != nil {
+			h.e.Logf("Lock(SHARED) err=%v", err)
+			return false
+		}
+		before := v.f.Pos().TXID
+		h.pollOnce(v, pfx) // lands in the staging area
+		staged := v.f.Pos().TXID > before
+		serr = v.f.SetTargetTime(h.ctx, T)
+		if err := v.f.Unlock(sqlite3vfs.LockNone); err != nil {
+			h.e.Logf("Unlock(NONE) err=%v", err)
+		}
+		h.e.Logf("direct view SetTargetTime under a SHARED lock; poll under the lock from pos=%d (%s) staged=%v; pos after Unlock %d", before, pfx.desc, staged, v.f.Pos().TXID)
+		h.res.Count("set_target_time_under_lock", 1)
+		if staged {
+			h.res.Count("set_target_time_under_lock_with_staged_updates", 1)
+			if pfx.batchShrink {
+				h.res.Count("set_target_time_under_lock_staged_batch_contains_shrink", 1)
+			}
+			if serr == nil {
+				h.res.Count("set_target_time_under_lock_with_staged_updates_served", 1)
+			}
+		}
+	case "race":
 		kind = "set-target-time-during-poll"
 		pfx = h.pollFacts(v, "poll")
 		before := v.f.Pos().TXID
@@ -1511,11 +1588,11 @@ func (h *harness) timeTravel(v *view, race bool, arg string) {
 		case err := <-done:
 			v.client.armed.Store(false)
 			h.res.HarnessErr = fmt.Sprintf("gated poll returned (err=%v) without listing level 0", err)
-			return
+			return false
 		case <-time.After(30 * time.Second):
 			h.res.HarnessErr = "gated poll did not reach its level-0 listing within 30s"
 			close(v.client.release)
-			return
+			return false
 		}
 		serr = v.f.SetTargetTime(h.ctx, T) // the poll is in flight, waiting for the replica
 		close(v.client.release)
@@ -1524,7 +1601,7 @@ func (h *harness) timeTravel(v *view, race bool, arg string) {
 		case perr2 = <-done:
 		case <-time.After(60 * time.Second):
 			h.res.HarnessErr = "released poll did not return within 60s"
-			return
+			return false
 		}
 		h.e.Logf("direct view poll in flight from pos=%d (%s) while SetTargetTime ran; poll err=%v, pos now %d", before, pfx.desc, perr2, v.f.Pos().TXID)
 		h.res.Count("set_target_time_during_poll", 1)
@@ -1541,24 +1618,34 @@ func (h *harness) timeTravel(v *view, race bool, arg string) {
 	switch {
 	case serr != nil && rerr != nil:
 		h.res.Count("timetravel_both_unavailable", 1)
-		if race {
-			pfx.desc = "poll that was in flight during a refused SetTargetTime: " + pfx.desc
+		if mode != "" {
+			pfx.desc = "poll that ran (" + mode + ") around a refused SetTargetTime: " + pfx.desc
 			h.compare(v, pfx)
 		}
-		return
+		return false
 	case serr != nil:
 		h.violate(v, fx, keyTT, "SetTargetTime(%s) fails (%v) although Restore(Timestamp) for that time succeeds", how, serr)
-		return
+		return false
 	case rerr != nil:
 		h.violate(v, fx, keyTT, "SetTargetTime(%s) serves a view although Restore(Timestamp) for that time fails: %v", how, rerr)
-		return
+		return false
 	}
 	v.tt = true
 	v.built(fx)
+	if v.hw != nil {
+		h.res.Count("set_target_time_on_hydration_enabled_view", 1)
+		if wasServing {
+			h.res.Count("set_target_time_switched_hydrated_reads_off", 1)
+		}
+		if v.gated {
+			v.ttDuringHyd = fmt.Sprintf("SetTargetTime(%s) ran while the background hydration (started at position %d) was in flight", how, v.posAtGate)
+			h.res.Count("set_target_time_while_hydration_in_flight", 1)
+		}
+	}
 	m := int(plan[len(plan)-1].MaxTXID) // the TXID the timestamp restore ends at
 	if img, err := h.image(m); err != nil || !bytes.Equal(img, want) {
 		h.res.HarnessErr = fmt.Sprintf("reference self-check failed: Restore(Timestamp=%s) differs from image_%d (end of the restore plan for that time) err=%v", how, m, err)
-		return
+		return false
 	}
 	h.compares++
 	h.cmpTXIDs[m] = true
@@ -1571,32 +1658,133 @@ func (h *harness) timeTravel(v *view, race bool, arg string) {
 		what += fmt.Sprintf(" [the view reports position %d]", got)
 		h.res.Count("timetravel_position_differs_from_plan", 1)
 	}
+	fx.ref = m
+	v.ttWant, v.ttWhat, v.ttFx, v.ttTXID = want, what, fx, m
 	ok := h.compareBytes(v, fx, want, what)
 	h.e.Logf("direct view %s: plan ends at %d, view pos=%d -> ok=%v (%s)", kind, m, v.f.Pos().TXID, ok, fx.desc)
-	if ok && pollDuring {
-		// a poll must not disturb the historical view
-		err := v.f.VerifPollOnce(h.ctx)
-		h.e.Logf("direct view VerifPollOnce during time travel err=%v pos=%d", err, v.f.Pos().TXID)
-		fx2 := fx
-		fx2.kind = "poll-in-time-travel"
-		h.compares++
-		h.res.Count("compare_poll-in-time-travel", 1)
-		ok = h.compareBytes(v, fx2, want, what)
+	return ok
+}
+
+// ttPoll: a poll must not disturb the historical view (whatever the primary
+// has committed since SetTargetTime).
+func (h *harness) ttPoll(v *view) bool {
+	if v == nil || !v.tt {
+		return false
 	}
-	if !ok {
+	err := v.f.VerifPollOnce(h.ctx)
+	h.e.Logf("direct view VerifPollOnce during time travel err=%v pos=%d", err, v.f.Pos().TXID)
+	fx2 := v.ttFx
+	fx2.kind = "poll-in-time-travel"
+	h.compares++
+	h.res.Count("compare_poll-in-time-travel", 1)
+	return h.compareBytes(v, fx2, v.ttWant, v.ttWhat)
+}
+
+// ttReset: ResetTime (optionally inside a read transaction) vs the restore at
+// the position the view reports afterwards.
+func (h *harness) ttReset(v *view, locked bool) {
+	if v == nil || !v.tt {
 		return
 	}
+	ttPos := int(v.f.Pos().TXID)
+	kind := "reset-time"
+	if locked {
+		kind = "reset-time-locked"
+		if err := v.f.Lock(sqlite3vfs.LockShared); err != nil {
+			h.e.Logf("Lock(SHARED) err=%v", err)
+			locked = false
+		}
+	}
 	plan2, _ := h.latestPlan()
-	fx3 := h.planFacts("reset-time", plan2)
-	if err := v.f.ResetTime(h.ctx); err != nil {
+	fx3 := h.planFacts(kind, plan2)
+	err := v.f.ResetTime(h.ctx)
+	if locked {
+		if uerr := v.f.Unlock(sqlite3vfs.LockNone); uerr != nil {
+			h.e.Logf("Unlock(NONE) err=%v", uerr)
+		}
+	}
+	if err != nil {
 		h.e.Logf("ResetTime err=%v", err)
 		h.res.Count("reset_time_error", 1)
 		v.broken = true // cannot be used further; not judged
 		return
 	}
 	v.tt = false
+	v.ttWant = nil
 	v.built(fx3)
+	if n := len(plan2); n > 0 && h.e.Arch.Max() > 0 {
+		// commits that reached the replica after the historical view's position
+		if end := int(plan2[n-1].MaxTXID); end > ttPos {
+			h.res.Count("reset_time_over_commits_after_the_historical_position", 1)
+		}
+	}
+	if v.hw != nil {
+		h.res.Count("reset_time_on_hydration_enabled_view", 1)
+		if after := int(v.f.Pos().TXID); v.hw.serving() && after > v.hydAt {
+			// hydrated reads were never switched off (SetTargetTime ran while the hydration was in flight)
+			v.miss(keyHydReset, v.hydAt, after, nil, fmt.Sprintf("ResetTime moved the position to %d of a view that serves from its hydrated copy (at TXID %d; SetTargetTime ran while the hydration was in flight, so hydrated reads stayed on)", after, v.hydAt))
+			v.hydAt = after
+			h.res.Count("reset_time_moved_position_of_hydrated_view", 1)
+		}
+	}
 	h.compare(v, fx3)
+}
+
+// resetOutsideTimeTravel: ResetTime (PRAGMA litestream_time = latest) on a view
+// that is not time travelling while the replica holds files the view has not
+// polled. locked: inside a read transaction during which a poll staged those
+// files (Lock(SHARED); poll; ResetTime; Unlock(NONE)).
+func (h *harness) resetOutsideTimeTravel(v *view, locked bool) {
+	if v == nil || v.tt {
+		return
+	}
+	kind := "reset-time-not-travelling"
+	before := v.f.Pos().TXID
+	if locked {
+		kind = "reset-time-locked-staged"
+		pfx := h.pollFacts(v, "poll")
+		if err := v.f.Lock(sqlite3vfs.LockShared); err != nil {
+			h.e.Logf("Lock(SHARED) err=%v", err)
+			return
+		}
+		h.pollOnce(v, pfx)
+		h.res.Count("reset_time_under_lock", 1)
+		if v.f.Pos().TXID > before {
+			h.res.Count("reset_time_under_lock_with_staged_updates", 1)
+		}
+	}
+	polled := v.f.Pos().TXID
+	serving := v.hw.serving()
+	plan, _ := h.latestPlan()
+	fx := h.planFacts(kind, plan)
+	err := v.f.ResetTime(h.ctx)
+	if locked {
+		if uerr := v.f.Unlock(sqlite3vfs.LockNone); uerr != nil {
+			h.e.Logf("Unlock(NONE) err=%v", uerr)
+		}
+	}
+	after := v.f.Pos().TXID
+	h.e.Logf("direct view ResetTime outside time travel (locked=%v) err=%v pos %d -> %d -> %d", locked, err, before, polled, after)
+	if err != nil {
+		h.res.Count("reset_time_error", 1)
+		v.broken = true
+		return
+	}
+	h.res.Count("reset_time_outside_time_travel", 1)
+	v.built(fx)
+	if after > polled {
+		h.res.Count("reset_time_outside_time_travel_moved_position", 1)
+		switch {
+		case serving:
+			v.miss(keyHydReset, int(polled), int(after), nil, fmt.Sprintf("ResetTime outside time travel moved the position %d -> %d of a view that serves from its hydrated copy", polled, after))
+			v.hydAt = int(after)
+			h.res.Count("reset_time_moved_position_of_hydrated_view", 1)
+		case v.gated:
+			v.miss(keyHydPoll, int(polled), int(after), nil, fmt.Sprintf("ResetTime advanced the position %d -> %d while the background hydration (started at position %d) was in flight", polled, after, v.posAtGate))
+			h.res.Count("reset_time_advanced_while_hydration_in_flight", 1)
+		}
+	}
+	h.compare(v, fx)
 }
 
 // ---------------------------------------------------------------------------
@@ -1628,10 +1816,20 @@ func (h *harness) sqlOpen() {
 		return
 	}
 	if h.cap == nil {
-		v := litestream.NewVFS(h.newClient(), h.logger)
+		h.capC = h.newClient()
+		lg := h.logger
+		if h.s.Hyd != "" {
+			h.capH = newHydHandler()
+			lg = slog.New(h.capH)
+		}
+		v := litestream.NewVFS(h.capC, lg)
 		v.PollInterval = 24 * time.Hour
 		if h.s.Cache > 0 {
 			v.CacheSize = h.s.Cache * h.ps
+		}
+		if h.s.Hyd != "" {
+			v.HydrationEnabled = true
+			v.HydrationPath = h.hydPath("sql")
 		}
 		h.cap = &capVFS{VFS: v}
 		h.vfsNm = fmt.Sprintf("c18-%d-%d", os.Getpid(), atomic.AddInt64(&vfsSeq, 1))
@@ -1641,6 +1839,13 @@ func (h *harness) sqlOpen() {
 		}
 	}
 	h.cap.last = nil
+	var hw *hydWatch
+	persisted := 0
+	if h.capH != nil {
+		hw = newHydWatch(false)
+		h.capH.cur.Store(hw)
+		persisted = persistedTXID(h.hydPath("sql"))
+	}
 	db, err := sql.Open("sqlite3", "file:/"+h.vfsNm+".db?vfs="+h.vfsNm+"&mode=ro")
 	if err != nil {
 		h.res.HarnessErr = "sql.Open on vfs: " + err.Error()
@@ -1657,8 +1862,15 @@ func (h *harness) sqlOpen() {
 		db.Close()
 		return
 	}
-	v := &view{label: "sql", f: h.cap.last, db: db, conn: conn}
+	v := &view{label: "sql", f: h.cap.last, db: db, conn: conn, client: h.capC, hw: hw, posAtOpen: h.cap.last.Pos().TXID}
 	h.sqlv = v
+	if hw != nil {
+		h.res.Count("hydration_started", 1)
+		h.noteResume(v, persisted)
+		if !h.awaitHydration(v) && h.res.HarnessErr != "" {
+			return
+		}
+	}
 	h.e.Logf("sqlite connection opened on registered vfs %s -> pos=%d maxTXID1=%d", h.vfsNm, v.f.Pos().TXID, v.f.MaxTXID1())
 	h.res.Count("sql_open", 1)
 	fx := h.planFacts("sql-open", plan)
